@@ -82,7 +82,7 @@ CHECKS = {
         "technique": "exhaustive enumeration of the configuration lattice (N, N_active, testparticle_type, gravity_ignore_terms, softening, G, mass pattern, ghost boxes, root layouts, routine) crossed with a small position alphabet, each point compared with the statement's pairwise sum evaluated in 80-bit arithmetic",
         "text": "54k configurations (quick): routine {BASIC, COMPENSATED, TREE at theta=0} x N 0..5 (thorough 9) x N_active {-1,0..N} x testparticle_type x gravity_ignore_terms {0,1,2} x softening x G x 4 mass patterns (incl. zero masses among actives and 1:1e-6:1e-12) x 2 position sets "
                 "x ghost boxes {none,(1,0,0),(1,1,0),(2,2,1)} x root layouts; MERCURIUS mode0+mode1 for every encounter subset x switching function and TRACE interaction+Kepler for every encounter subset x every 0/1 pattern of current_Ks must add up to the full heliocentric force. "
-                "Reference: the softened pairwise sum with the source set defined by the statement (actives always, test particles on actives iff type 1, never on each other, ignore-terms, images), numpy.longdouble; tolerance (16+2N)*u*sum|terms|; all-active: sum m_i a_i = 0.",
+                "Reference: the softened pairwise sum with the source set defined by the statement (actives always, test particles on actives iff type 1, never on each other, ignore-terms, images), numpy.longdouble; tolerance (16+2N+4sqrt(N x images))*u*sum|terms|; all-active: sum m_i a_i = 0.",
         "note": "The continuum of positions/masses is reduced to the stated alphabets. Not covered: JACOBI routine (exercised through the WHFast kernels under C01), finite opening angle error bound, OPENMP/MPI/QUADRUPOLE builds.",
     },
     "C12": {
